@@ -30,8 +30,8 @@ CHECKS = {
    note="Tier B (history refinement); rejected operations are the only fault-like events. Uses the verif-tagged accessor dawg/verif_export.go to read the automaton."),
  "C02": dict(engine="canon02", cat="exploration", design="DESIGN.md §4 C02",
    technique="seeded request histories through one reused storage/partition pair with interrupted (early-return) calls as faults, compared with fresh calls and a brute-force automorphism oracle",
-   text="One CanonicalStorage/partition pair of tape-chosen capacity serves a seeded history of labelling requests (sizes up and down, interrupted viability calls left mid-search, vertex classes); each result must equal a fresh call, be a permutation, and for n <= 9 match brute force (class-preserving where classes are given; plus identical canonical graph under class-respecting relabellings): orbits = orbits of Aut(g), every generator an automorphism, closure size = |Aut(g)|. Sampling, not proof.",
-   note="Tier B (history refinement); the interrupted call is the injected fault. Brute-force oracle limited to n <= 9 and |Aut(g)| <= 60000."),
+   text="One CanonicalStorage/partition pair of tape-chosen capacity serves a seeded history of labelling requests (sizes up and down, interrupted viability calls left mid-search, vertex classes); each result must equal a fresh call, be a permutation, and match brute force (groups up to 60000 elements) (class-preserving where classes are given; plus identical canonical graph under class-respecting relabellings): orbits = orbits of Aut(g), every generator an automorphism, closure size = |Aut(g)|. Sampling, not proof.",
+   note="Tier B (history refinement); the interrupted call is the injected fault. n <= 16; brute-force oracle limited to |Aut(g)| <= 60000."),
  "C03": dict(engine="shard03", cat="exploration", design="DESIGN.md §4 C03",
    technique="multi-party simulation of the m search shards advanced in seeded interleavings; exactly-once/conservation over the joint history against an independent isomorphism-class enumeration",
    text="All configurations (n, m, predicate placement) in the tier's range are run with the m shard iterators advanced in a tape-chosen interleaving; every yielded value must be well formed and the multiset of independent canonical codes must equal the independently generated class set satisfying the predicate. Exhaustive over configurations at small n, sampled beyond.",
